@@ -191,7 +191,19 @@ impl Archive {
     /// Return the last completely-written band id, if any.
     pub async fn last_complete_band(&self) -> Result<Option<Band>> {
         for band_id in self.list_band_ids().await?.into_iter().rev() {
-            let b = Band::open(self, band_id).await?;
+            let b = match Band::open(self, band_id).await {
+                Ok(b) => b,
+                Err(err) => {
+                    // A band directory whose head is missing or unreadable, and that has no
+                    // tail, is left over from a backup that was interrupted before or while
+                    // the head was written: it is not complete, so keep looking.
+                    if self.band_is_closed(band_id).await? {
+                        return Err(err);
+                    }
+                    warn!(?band_id, ?err, "Skipping incomplete band with unreadable head");
+                    continue;
+                }
+            };
             if b.is_closed().await? {
                 return Ok(Some(b));
             }
